@@ -52,12 +52,12 @@ Tour(c) ==
 \* the driver; what = "roundtrip": tokens written by Instance.to_stream for the instance built from scale * M
 \* (divided by the scale again; div_ok = 0 if a written token was not a multiple of the scale)
 Scaled(c) ==
-  (IF c.ok # 1 THEN {"loader-rejects-valid-text:" \o c.fmt \o "(large weights)"}
+  (IF c.ok # 1 THEN {"loader-rejects-valid-text:" \o c.fmt \o "(large-weights)"}
    ELSE IF c.fmt \notin Formats THEN {"writer-unknown-format"}
    ELSE (IF c.div_ok # 1 \/ c.tokens # TokensOf(c.fmt, c.M)
          THEN {IF c.what = "explicit" THEN "driver-bad-tokens" ELSE "written-tokens-not-in-format:" \o c.fmt} ELSE {})
         \cup (IF c.loadedB # [i \in 1..c.n |-> [j \in 1..c.n |-> BMul(c.bscale, BOfNat(c.M[i][j]))]]
-              THEN {IF c.what = "explicit" THEN "explicit-format:" \o c.fmt \o "(large weights)" ELSE "write-read-matrix(large weights)"}
+              THEN {IF c.what = "explicit" THEN "explicit-format:" \o c.fmt \o "(large-weights)" ELSE "write-read-matrix(large-weights)"}
               ELSE {}))
 Verdict(c) == CASE c.kind = "explicit" -> Explicit(c) [] c.kind = "roundtrip" -> RoundTrip(c)
                 [] c.kind = "scaled" -> Scaled(c)
